@@ -38,6 +38,10 @@ SPECIES = {
     "#H": ({"H": 1}, 0),
     "#H2": ({"H": 2}, 0),
     "#CO": ({"C": 1, "O": 1}, 0),
+    # names that differ from a spin-labelled species only by case (para-H2 / PH2, ortho-H2 / OH2)
+    "P": ({"P": 1}, 0),
+    "PH2": ({"P": 1, "H": 2}, 0),
+    "OH2": ({"O": 1, "H": 2}, 0),
     # names that repeat an element symbol in separate tokens
     "CH3OH": ({"C": 1, "H": 4, "O": 1}, 0),
     "HCOOH": ({"C": 1, "H": 2, "O": 2}, 0),
@@ -90,7 +94,7 @@ def cases(tier):
         singles = balanced_reactions(QUICK_SPECIES, 2, 3)
         pool = singles[::max(1, len(singles) // 24)][:24]
     else:
-        singles = balanced_reactions([x for x in SPECIES if not x.startswith("GRAIN") and x not in ("CH3OH", "HCOOH", "#CH3OH")], 3, 3)
+        singles = balanced_reactions([x for x in SPECIES if not x.startswith("GRAIN") and x not in ("CH3OH", "HCOOH", "#CH3OH", "P", "PH2", "OH2")], 3, 3)
         pool = singles[::max(1, len(singles) // 60)][:60]
     for r, p in singles:
         yield {"reactions": [[r, p]], "family": "single"}
@@ -104,6 +108,8 @@ def cases(tier):
         (["#H2"], ["H2"]),
         (["oH2"], ["pH2"]),
         (["H2", "e-"], ["H", "H-"]),
+        (["PH2"], ["P", "pH2"]),
+        (["OH2"], ["O", "oH2"]),
         (["CH3OH"], ["CO", "H2", "H2"]),
         (["HCOOH"], ["CO", "H2", "O"]),
         (["CH3OH"], ["#CH3OH"]),
